@@ -5,7 +5,8 @@
    (Spec.mate_in / mated_in) on searches of the real engine. *)
 From Coq Require Import Permutation.
 From Walleye Require Import Model.Search Spec.Minimax Spec.Abs Proofs.MateText Proofs.DrawTableProofs Proofs.TableRestored Proofs.RootProofs
-  Proofs.CheckProofs Proofs.GenerateAbs Proofs.LegalMoves Proofs.PVSRoot Proofs.MateInOne Proofs.PositionGo Proofs.ClockSim.
+  Proofs.CheckProofs Proofs.GenerateAbs Proofs.LegalMoves Proofs.PVSRoot Proofs.MateInOne Proofs.PositionGo Proofs.ClockSim Proofs.AlwaysAnswered Proofs.TightRange Proofs.OhBound Proofs.MateHeld.
+From Walleye Require Import Model.Uci Gen.Handover.
 Open Scope Z_scope.
 
 (* N is never 0 for any value a completed root evaluation can take, and has the sign of the score *)
@@ -76,7 +77,60 @@ Theorem C11_avoidable_mate_is_avoided : forall zt osort,
     ~ (is_threefold_repetition t mov = false /\ allows_mate zt t mov).
 Proof. exact avoidable_mate_is_avoided. Qed.
 
+(* "the move played": what is printed after bestmove, and played on the engine's board, is the NEWEST move the search
+   handed over - not an earlier, superseded candidate (the repaired defect F13: the polling loop could leave holding
+   an older send; now the channel is drained after the search thread is joined).  With C11_mate_in_one_is_played: when
+   the search stops within its first three iterations after proving a mate in one, the move played mates *)
+Theorem C11_the_move_played_is_the_newest_one_handed_over : forall zt osort,
+  (forall i l, l <> [] -> osort i l <> []) ->
+  forall st cmds sc gt st' outs,
+  NULL_PLY_OFFSET * Z.of_nat (sc_fuel sc) + 1 <= 2 * MATE_SCORE ->
+  parse_go_command cmds = Ok gt -> generate_moves zt (ss_board st) AllMoves <> [] ->
+  go_step zt osort st cmds sc = (st', outs) -> ss_phase st' = Running ->
+  exists ev s b t more,
+    get_best_move zt osort (sc_k sc) (sc_fuel sc) (ss_board st) (ss_table st) = Ok (ev, s) /\
+    sends_of ev = more ++ [b] /\ best_move_text b = Ok t /\ ss_board st' = b /\ outs = infos_of ev ++ [s_bestmove ++ t].
+Proof. exact go_plays_the_newest_send. Qed.
+
+(* the first sentence of the property for the WHOLE search and EVERY deadline (expiry index k of the clock): if some move
+   mates, and the first iteration ends before the clock expires, then - however many further iterations are run, at
+   whatever depth (null move, zero-window re-searches and all), and wherever the clock expires afterwards - the last
+   move the search hands over mates; by C11_the_move_played_is_the_newest_one_handed_over that is the move played.
+   The hypotheses: a well-formed board whose own ordering value is below the PV mark (true of every board a `position`
+   command produces: C11_generated_moves_rank_below_the_pv_mark), an ordering oracle that returns sorted permutations
+   (checked on every logged sort by the correspondence), a mating position that has not occurred twice before, and
+   the existence of the specification's values for the first iteration (fuel F).
+   This is what the repair of F14 establishes: before it the root recognised last iteration's best move by its squares
+   only, and the theorem is false of that code (k7/8/8/8/8/7P/5pPK/6BR b, expiry 2500). *)
+Theorem C11_mate_in_one_is_played_whatever_the_deadline : forall zt osort,
+  (forall i l, Permutation l (osort i l)) -> (forall i l, sorted_desc (osort i l) = true) ->
+  forall k fuel b t F ws m1 r1 ev s,
+  1 <= PLYMAX - NULL_PLY_OFFSET * Z.of_nat fuel ->
+  pos_ok b AllMoves -> order_heuristic b < POS_INF -> dt_nonneg t ->
+  (forall y, In y (generate_moves zt b AllMoves) -> mated zt y -> is_threefold_repetition t y = false) ->
+  1 + Z.of_nat F <= 100 -> Forall2 (fun m x => negamax zt F m (1 - 1) 1 t = Some x) (generate_moves zt b AllMoves) ws ->
+  In m1 (generate_moves zt b AllMoves) -> mated zt m1 ->
+  first_iteration zt osort k fuel b t = Ok (Some r1, r1) -> quiet k (r_s r1) ->
+  get_best_move zt osort k fuel b t = Ok (ev, s) ->
+  exists more m, sends_of ev = more ++ [m] /\ mated zt m.
+Proof. exact mate_in_one_is_played_whatever_the_deadline. Qed.
+
+(* every generated move ranks below the PV mark when the position it was generated from does (captures: an MVV_LVA
+   entry; quiet moves 0; promotions their two constants; castling and en passant inherit the parent's value) *)
+Theorem C11_generated_moves_rank_below_the_pv_mark : forall zt s m x,
+  order_heuristic s < POS_INF -> In x (generate_moves zt s m) -> order_heuristic x < POS_INF.
+Proof. exact generated_oh_below_mark. Qed.
+
+(* the tie of that model to uci.rs, regenerated from the source on every run: after `search_thread.join()` the channel is
+   drained into `best_move`, and that is what is unwrapped and played (Gen/Consts.v, extract_consts.py) *)
+Theorem C11_source_drains_the_channel_after_the_join : HANDOVER_DRAINS_AFTER_JOIN = true.
+Proof. reflexivity. Qed.
+
+Print Assumptions C11_mate_in_one_is_played_whatever_the_deadline.
+Print Assumptions C11_source_drains_the_channel_after_the_join.
+Print Assumptions C11_generated_moves_rank_below_the_pv_mark.
 Print Assumptions C11_mate_number_nonzero.
+Print Assumptions C11_the_move_played_is_the_newest_one_handed_over.
 Print Assumptions C11_mated_is_checkmate.
 Print Assumptions C11_mate_in_one_is_played.
 Print Assumptions C11_avoidable_mate_is_avoided.
